@@ -374,6 +374,16 @@ func (r *Run) Guard(phase string, caseSeed int64, f func()) {
 // test is.  Use for single-threaded scenarios, where nobody else can legitimately
 // hold the lock.
 func Blocked(frames []string, f func()) (stack string, blocked bool) {
+	stack, blocked, _ = BlockedUntil(frames, f, nil)
+	return stack, blocked
+}
+
+// BlockedUntil is Blocked with a way out for cases that were in flight when a
+// liveness violation was declared elsewhere: once giveUp() reports true and f's
+// goroutine is parked in ANY way with an unchanging stack (e.g. waiting on a
+// channel for a helper goroutine that is the one stuck on the lock), f is
+// abandoned without a verdict (gaveUp).
+func BlockedUntil(frames []string, f func(), giveUp func() bool) (stack string, blocked, gaveUp bool) {
 	done := make(chan struct{})
 	idc := make(chan string, 1)
 	go func() {
@@ -426,24 +436,29 @@ func Blocked(frames []string, f func()) (stack string, blocked bool) {
 	grace := time.After(10 * time.Second)
 	select {
 	case <-done:
-		return "", false
+		return "", false, false
 	case <-grace:
 	}
 	for {
 		g1, p1 := inspect()
 		select {
 		case <-done:
-			return "", false
+			return "", false, false
 		case <-time.After(3 * time.Second):
 		}
 		g2, p2 := inspect()
-		if p1 && p2 && strip(g1) == strip(g2) {
+		if strip(g1) == strip(g2) && g1 != "" {
 			select {
 			case <-done:
-				return "", false
+				return "", false, false
 			default:
 			}
-			return g2, true
+			if p1 && p2 {
+				return g2, true, false
+			}
+			if giveUp != nil && giveUp() && !strings.Contains(g2[:strings.Index(g2, "\n")], "[running") && !strings.Contains(g2[:strings.Index(g2, "\n")], "[runnable") {
+				return g2, false, true
+			}
 		}
 	}
 }
@@ -566,6 +581,9 @@ func (r *Run) Parallel(phase string, n, workers int, f func(i int, caseSeed int6
 // measurement (leaked spinning goroutines, a wallet that never stops): the
 // verdict is already "violated", the remaining cases add nothing.
 func (r *Run) StopEarly() { atomic.StoreInt32(&r.stopEarly, 1) }
+
+// Stopping reports whether StopEarly was called.
+func (r *Run) Stopping() bool { return atomic.LoadInt32(&r.stopEarly) == 1 }
 
 // TempDir creates the run's scratch directory; without one the run cannot be
 // trusted (relative paths would be shared between cases): inconclusive.
